@@ -140,6 +140,7 @@ func init() {
 		partStoreStress(c, a) // concurrent registration of type names (ids and names one-to-one)
 		partStepThrough(c, a, []string{"create", "lastleave", "switch", "join-vs-lastleave"})
 		partRealRegistryAcrossReregistration(c, a)
+		partIDScripts(c, a)
 		return a.finish(c)
 	}
 }
